@@ -18,8 +18,8 @@ DELTA = 0.01
 BOUNDS = {'quick': 'die height 4 (then transposed: width 4), die extent on the other axis and all region boundaries on that axis '
                    'symbolic breakpoints 0<b1<...<W (gaps in [0.01,250]); k<=1 region on 16 placements x 3 kinds (blockage, '
                    'specialised, fixed module) and k=2 regions on 14 placements with <=3 breakpoints; k=3 regions at concrete places in all 60 mixed orders of the tags #/dsp/bram/fixed; region lists of every length 4..8 at concrete places (20 cases); bands from {full, lower, middle, upper, lower half, upper half}; '
-                   'negative harness: one region sticking out, two regions overlapping; binary64 kernel: decimal coordinates n/10, n/100 with n < 2^8 (2^10-2^11 thorough)',
-          'thorough': 'k=2 on all generated placements over <=3 breakpoints (3 tag pairs) and a sample of the placements over 4 breakpoints (two band pairs); k=3 symbolic on 3 stacked/side-by-side placements; decimal kernel with n < 2^10..2^11'}
+                   'negative harness: one region sticking out, two regions overlapping; binary64 kernel: decimal coordinates n/10, n/100 with n < 2^8 (2^10 thorough)',
+          'thorough': 'k=2 on all generated placements over <=3 breakpoints (3 tag pairs) and a sample of the placements over 4 breakpoints (two band pairs); k=3 symbolic on 3 stacked/side-by-side placements; decimal kernel with n < 2^10 (steps 0.1 and 0.01)'}
 ASSUMPTIONS = ['R model; tolerances preset 1e-10/1e-5; distinct boundary coordinates differ by >= 0.01',
                'one axis symbolic at a time']
 NOT_DECIDED = ['binary64 rounding beyond the inside test of decimal coordinates n/10, n/100 (the fp-border kernel runs the real Die._check_rectangles inside test on z3 FloatingPoint terms)', 'both axes symbolic at once',
@@ -85,7 +85,7 @@ def cases(tier):
     kinds2 = [('#', 'dsp'), ('fixed', '#'), ('dsp', 'fixed')]
     if tier != 'quick':
         # every placement on <= 3 breakpoints, every 4th placement on 4 breakpoints (these cost 4-25 min of solver time each)
-        valid2 = [p for p in valid2 if p[0] <= 3] + [p for p in valid2 if p[0] == 4 and (p[3], p[4]) in (('lower', 'upper'), ('full', 'full'))][::2]
+        valid2 = [p for p in valid2 if p[0] <= 3] + [p for p in valid2 if p[0] == 4 and (p[3], p[4]) in (('lower', 'upper'), ('full', 'full'))][::4]
     for n_, (nb, a, b, ba, bb, _) in enumerate(valid2):
         ks = [kinds2[n_ % len(kinds2)]] if (tier == 'quick' or nb >= 4) else kinds2
         for (ka, kb) in ks:
@@ -124,7 +124,7 @@ def cases(tier):
     cs.append(dict(kind='outside-band', nb=2, regions=[[0, 1, 'lower', '#']], transposed=0))
     # binary64 kernel: decimal coordinates (n/10, n/100) touching the die border
     for axis in ('x', 'y'):
-        for bits, scale in ((8, 10), (8, 100)) if tier == 'quick' else ((10, 10), (10, 100), (11, 1000)):
+        for bits, scale in ((8, 10), (8, 100)) if tier == 'quick' else ((10, 10), (10, 100)):
             cs.append(dict(kind='fp-border', axis=axis, bits=bits, scale=scale, slow=(200 if tier == 'quick' else 1500)))
     if tier == 'thorough':
         for nb, regs in ((4, [(0, 1), (1, 2), (3, 4)]), (3, [(0, 3), (1, 2), (1, 2)]), (5, [(1, 2), (2, 4), (3, 5)])):
